@@ -111,13 +111,47 @@ func randomDriver(rec *recorder, seed int64, n, length int) {
 			env.Pol[p] = g.rules(3)
 		}
 		for i := 1; i <= 2; i++ {
-			env.Roles[fmt.Sprintf("r%d", i)] = Role{Pols: g.subset(pols, 0.4), Svc: g.identNames(0.15), Node: g.identNames(0.1)}
+			env.Roles[fmt.Sprintf("r%d", i)] = Role{Pols: g.subset(pols, 0.4), Svc: g.identNames(0.15), Node: g.identNames(0.1),
+				TSvc: g.identNames(0.1), TNode: g.identNames(0.06)}
 		}
 		toks := []string{}
 		for i := 1; i <= 6; i++ {
 			t := fmt.Sprintf("t%d", i)
 			toks = append(toks, t)
-			env.Tok[t] = Tok{Pols: g.subset(pols, 0.45), Roles: g.subset([]string{"r1", "r2"}, 0.25), Svc: g.identNames(0.12), Node: g.identNames(0.08)}
+			env.Tok[t] = Tok{Pols: g.subset(pols, 0.45), Roles: g.subset([]string{"r1", "r2"}, 0.25), Svc: g.identNames(0.12), Node: g.identNames(0.08),
+				TSvc: g.identNames(0.08), TNode: g.identNames(0.05)}
+		}
+		// every other history: t6 = t5 plus the SAME synthetic policy twice (identity X + templated policy X,
+		// the latter possibly through a role r3 that holds nothing else), so that t5 and t6 differ by a
+		// duplicate pair only
+		if r.Intn(2) == 0 {
+			x := ints(g.pick(rndIdent))
+			t5 := env.Tok["t5"]
+			t6 := Tok{Pols: append([]string{}, t5.Pols...), Roles: append([]string{}, t5.Roles...),
+				Svc: append([][]int{}, t5.Svc...), Node: append([][]int{}, t5.Node...),
+				TSvc: append([][]int{}, t5.TSvc...), TNode: append([][]int{}, t5.TNode...)}
+			viaRole := r.Intn(3) == 0
+			r3 := Role{Pols: []string{}, Svc: [][]int{}, Node: [][]int{}, TSvc: [][]int{}, TNode: [][]int{}}
+			if r.Intn(2) == 0 {
+				t6.Svc = append(t6.Svc, x)
+				if viaRole {
+					r3.TSvc = append(r3.TSvc, x)
+				} else {
+					t6.TSvc = append(t6.TSvc, x)
+				}
+			} else {
+				t6.Node = append(t6.Node, x)
+				if viaRole {
+					r3.TNode = append(r3.TNode, x)
+				} else {
+					t6.TNode = append(t6.TNode, x)
+				}
+			}
+			if viaRole {
+				env.Roles["r3"] = r3
+				t6.Roles = append(t6.Roles, "r3")
+			}
+			env.Tok["t6"] = t6
 		}
 		w := World{Env: env, Names: names, Fams: []string{"*"},
 			Dflt:  []string{"deny", "allow"}[r.Intn(2)],
